@@ -62,6 +62,24 @@ def run(tier, out, model_ok, proof):
         cid = "x%d" % i
         cases.append((cid, data))
         exact[cid] = exp
+    # type-like parameters that make a directive body-less (any, empty, @type, the array shortcut
+    # [@type]), bare and quoted, each followed by further directives that a wrongly expected body
+    # would swallow; own random stream, so the cases above stay what they were
+    rng2 = random.Random(seed() + 12)
+    for i in range(3000 if big else 400):
+        docs = []
+        for _ in range(rng2.randint(1, 3)):
+            docs.append(layout.D(rng2.choice(["200", "404", "Body", "Request"]),
+                                 [rng2.choice([b"any", b"empty", b"@t", b"[@t]", b"@a-b_c", b"[@a-b_c]"])],
+                                 rng2.choice([None, "note"])))
+            docs += layout.gen_lexical_doc(rng2, n=1)
+        for d in docs:
+            if getattr(d, "regex", False):
+                d.bkind = "R"
+        data, exp = layout.render(docs, layout.Layout.random(rng2))
+        cid = "y%d" % i
+        cases.append((cid, data))
+        exact[cid] = exp
     cases = [("c%d_%s" % (i, cid), d) for i, (cid, d) in enumerate(cases)]
     if model_ok:
         results, mism = scancorr.run_scan(cases, traj=True)
@@ -98,7 +116,7 @@ def run(tier, out, model_ok, proof):
     out.coverage.update({
         "evaluations": len(cases),
         "distinct_nontrivial": len(nontrivial),
-        "rule": "random bytes over the scanner's alphabet, random directive-like documents, mutated corpus files, corpus files, and documents rendered from abstract directive lists in random layouts (LF/CRLF/CR, indentation, quoting, // and /* */ annotations, trivia, trailing blanks) whose expected lexeme extents are computed by the renderer; non-trivial = at least two lexemes; checked: per-Next() configuration equality implementation vs extracted Coq model, the well-formedness predicate on every implementation result, byte-exact extents for rendered documents",
+        "rule": "random bytes over the scanner's alphabet, random directive-like documents, mutated corpus files, corpus files, and documents rendered from abstract directive lists in random layouts (LF/CRLF/CR, indentation, quoting, // and /* */ annotations, trivia, trailing blanks) whose expected lexeme extents are computed by the renderer, plus a stream of body-less directives with type-like parameters (any, empty, @type, [@type]; bare and quoted) followed by further directives; non-trivial = at least two lexemes; checked: per-Next() configuration equality implementation vs extracted Coq model, the well-formedness predicate on every implementation result, byte-exact extents for rendered documents",
         "samples": [{"input": d.decode("latin1")[:120], "lexemes": results[c]["lex"][:8]} for c, d in cases[:2] + cases[-2:] if c in results],
         "traces_validated_against_impl": len(cases) - len(mism) if model_ok else 0,
         "exactness_cases": nexact,
